@@ -18,6 +18,9 @@ MODULES = [
     "contracts.base",
     "contracts.db",
     "contracts.util",
+    "contracts.dbquery",
+    "contracts.notifier",
+    "contracts.gc",
 ]
 for m in MODULES:
     importlib.import_module(m)
@@ -32,6 +35,9 @@ COMMON_ASSUMPTIONS = ["A1", "A6", "A7"]
 
 _TB = ["z3 SMT solver (cvc5 for string queries z3 leaves open)", "pyvc VC generator (/verif/pyvc)", "CPython ast module"]
 PROPERTIES = {
+    "C17": {"level": "proof", "trusted_base": _TB, "assumptions": ["A3", "GCSQL", "SQL"]},
+    "C20": {"level": "proof", "trusted_base": _TB, "assumptions": ["TCP", "A4", "EV"]},
+    "C01": {"level": "proof", "trusted_base": _TB, "assumptions": ["REPL", "SQL"]},
     "C04": {"level": "proof", "trusted_base": _TB, "assumptions": ["EV", "ENC", "JSON", "SQL"]},
     "C03": {"level": "proof", "trusted_base": _TB, "assumptions": ["EV", "SQL", "JSON"]},
     "C05": {"level": "proof", "trusted_base": _TB, "assumptions": ["EV", "A4"]},
